@@ -113,6 +113,21 @@ def zoo_timepars(sim, cfg, c16):
             if not r3.check_scalar(c06, kind, v, tp.values, f):
                 out.append(F(dict(oracle='builtin-declaration', form=form, kind=kind, what='value'),
                              f"{where}: per-step value {tp.values!r} is not the declared {src} converted to the module's step (declared unit / step = {float(f)!r}; the object says unit={tp.unit!r})"))
+        # round 5: a parameter the class DECLARES as a plain time parameter but which is held as a bare number (the override lost its wrapper):
+        # the bare number is what the module applies per step; it must equal the configured number converted to the module's step
+        seen_pars = set()
+        for n in [c.__name__ for c in type(m).__mro__]:
+            for d in [d for d in r3.builtin_decls() if d['cls'] == n and d['form'] == 'plain' and d['par'] not in seen_pars]:
+                seen_pars.add(d['par'])
+                obj = m.pars.get(d['par'], None) if hasattr(m.pars, 'get') else None
+                if isinstance(obj, bool) or not isinstance(obj, (int, float)): continue
+                v = mc.get(d['par']) if mc else None
+                if isinstance(v, bool) or not isinstance(v, (int, float)): continue
+                f = r3.ref_factor(c06, d['unit'], mu, mdt)
+                if not r3.check_scalar(c06, d['kind'], v, float(obj), f):
+                    out.append(F(dict(oracle='builtin-declaration', form='plain', kind=d['kind'], what='value'),
+                                 f"{type(m).__name__} `{m.name}` (stepping {mdt} {mu}), parameter {d['par']}={v} (default `{d['src']}`): held as the bare number {obj!r}, which is applied per step "
+                                 f"as is; {v} per/for one {d['unit'] or mu} converted to the module's step is something else (unit / step = {float(f)!r})"))
     return out
 
 
@@ -234,6 +249,14 @@ def zoo_beta(sim, cfg, c16):
                 bunit = beta.unit
                 f = c06.exact_ratio(bunit, 1.0, dis.t.unit, dis.t.dt)
                 bstep = float(c06.tp_ref(beta.v, f)[0]); b = float(beta.v); decl = f'ss.beta({beta.v}, unit={bunit!r})'
+            elif isinstance(dis.pars.get('beta', None), (int, float)) and not isinstance(dis.pars.get('beta', None), bool) and \
+                    any(d['form'] == 'plain' and d['kind'] == 'beta' for d in table_rows(dis, 'beta')):
+                # round 5: a SCALAR number as the module's beta although the class declares `beta = ss.beta(..)`: the user's number replaces the number
+                # inside the default (Pars._update_timepar), so it is a per-unit-time beta in the default's unit, not a per-step value
+                row = next(d for d in table_rows(dis, 'beta') if d['form'] == 'plain')
+                bunit = row['unit'] or dis.t.unit; b = float(beta)
+                f = c06.exact_ratio(bunit, 1.0, dis.t.unit, dis.t.dt)
+                bstep = float(c06.tp_ref(b, f)[0]); decl = f"beta={beta} (a plain number replacing the default `{row['src']}`, i.e. per {bunit})"
             else:
                 bstep = b = float(beta); bunit = None; decl = f'the plain number {beta} (per step / per act by convention)'
             plain = type(net).net_beta is ss.Network.net_beta
